@@ -518,6 +518,9 @@ func (n *Node) Info() *NodeInfo {
 func (n *Node) SetLib(l int64) { n.mu.Lock(); n.scriptLib = l; n.mu.Unlock() }
 
 func (n *Node) Recorded() []recMsg {
+	// messages to the pool are sent asynchronously: a round trip through its mailbox
+	// guarantees everything sent before has been recorded
+	n.MempoolSync()
 	n.mu.Lock()
 	defer n.mu.Unlock()
 	return append([]recMsg(nil), n.recs...)
